@@ -4,8 +4,6 @@ import "github.com/fiorix/go-diameter/v4/diam/dict"
 
 // C09: dispatch selects the handler by index, then by name, then the catch-all.
 
-func zzFlag(tag string) bool { return vChoice(tag, 2) == 1 }
-
 func zzC09_mux() {
 	d := vAbstractDict()
 	app, code, flags := vU32("app"), vU32("code")&0xffffff, vU8("flags")
